@@ -255,7 +255,10 @@ func (g *Group) scanStruct(realval reflect.Value, sfield *reflect.StructField, h
 				return err
 			}
 
-			if len(g.options)+len(g.groups) != flagCountBefore {
+			// keep what was allocated if it is in use: it holds options or
+			// groups, or it was handed to a command or to the positional
+			// arguments
+			if len(g.options)+len(g.groups) != flagCountBefore || mtag.Get("command") != "" || mtag.Get("positional-args") != "" {
 				realval.Field(i).Set(fld)
 			}
 		}
